@@ -197,13 +197,29 @@ def run(c):
             # (a body made of white space only would itself read as the blank line)
             if i > 0 and fb.strip() and b"\r" not in fb and b"\n" not in fb:
                 muts.append(("part-blank-line-removed", head + b"\r\n\r\n" + body[:i] + b"\r\n" + body[i + 4:]))
+        if multi:
+            # a part that loses one of its two headers, or a stream that ends inside a part's headers
+            i = body.find(b"\r\n\r\n")
+            part_head = body[:i].split(b"\r\n") if i > 0 else []
+            if len(part_head) == 3 and part_head[0] == BOUNDARY_LINE:
+                ct_line, cr_line = part_head[1], part_head[2]
+                if ct_line.lower().startswith(b"content-type:") and cr_line.lower().startswith(b"content-range:"):
+                    muts.append(("part-content-range-removed", head + b"\r\n\r\n" + BOUNDARY_LINE + b"\r\n" + ct_line + body[i:]))
+                    muts.append(("part-content-type-removed", head + b"\r\n\r\n" + BOUNDARY_LINE + b"\r\n" + cr_line + body[i:]))
+                    muts.append(("truncated-inside-part-headers", head + b"\r\n\r\n" + BOUNDARY_LINE + b"\r\n" + ct_line + b"\r\n"))
+                    # ... of the last part
+                    j = body.rfind(BOUNDARY_LINE + b"\r\n")
+                    k = body.find(b"\r\n", j + len(BOUNDARY_LINE) + 2)
+                    if j > 0 and k > 0:
+                        muts.append(("truncated-inside-last-part-headers", head + b"\r\n\r\n" + body[:k + 2]))
         for kind, m in muts:
             cid = "k%d" % n
             n += 1
             cases.append(core.Case(cid, "resp.parse", [m]))
             meta[cid] = (kind, multi, m, r)
     obs = core.run_cases(cases)
-    for k in ("status-unregistered", "status-not-a-number", "reason-of-another-status", "reason-garbage", "opening-boundary-removed", "closing-boundary-removed", "part-blank-line-removed"):
+    for k in ("status-unregistered", "status-not-a-number", "reason-of-another-status", "reason-garbage", "opening-boundary-removed", "closing-boundary-removed", "part-blank-line-removed",
+              "part-content-range-removed", "part-content-type-removed", "truncated-inside-part-headers", "truncated-inside-last-part-headers"):
         c.need("corruption " + k)
     for cs in cases:
         o = obs.get(cs.id)
